@@ -82,6 +82,27 @@ def rbf_case(p):
     nso = lf.n_states_out_
     if (nu == 0 and nso != ns + k) or (nu > 0 and (nso != ns or lf.n_inputs_out_ != nu + k)):
         return dict(what='RBF block not appended where declared', n_states_out=int(nso))
+    # fitted on whole-number data given as an integer-typed matrix, then asked for real-valued samples: same formula
+    lf_i = pykoop.RbfLiftingFn(rbf=fn, centers=pykoop.DataCenters(C), shape=p['shape'], offset=p['offset'])
+    lf_i.fit(Xwd.astype(np.int64), n_inputs=nu, episode_feature=ep)
+    Tq = lf_i.transform(Xd)
+    if Tq.shape != want.shape or not np.allclose(Tq, want, rtol=1e-9, atol=1e-12, equal_nan=True):
+        return dict(what='RbfLiftingFn fitted on an integer-typed matrix does not give R(shape*||[x;u]-c||+offset) for real-valued samples')
+    # centres generated from the data: all the rows the lifting function was fitted on count, whatever their episode
+    if ep and p['rows'] >= 4:
+        import sklearn.base
+        gens = [pykoop.GridCenters(n_points_per_feature=2), pykoop.DataCenters(),
+                pykoop.UniformRandomCenters(n_centers=3, random_state=np.random.RandomState(p['seed'] % 1000))]
+        g = gens[p['seed'] % 3] if n <= 4 else gens[1 + p['seed'] % 2]
+        Xe = np.array(Xd, copy=True)
+        Xe[Xe[:, 0] == Xe[-1, 0], 1:] += 5.0 * scale          # the second episode lives elsewhere
+        lf_g = pykoop.RbfLiftingFn(rbf=fn, centers=sklearn.base.clone(g), shape=p['shape'], offset=p['offset'])
+        lf_g.fit(Xe, n_inputs=nu, episode_feature=True)
+        ref = sklearn.base.clone(g).fit(Xe[:, 1:])
+        got_c = np.asarray(lf_g.centers_.centers_)
+        if got_c.shape != ref.centers_.shape or not np.allclose(got_c, ref.centers_, rtol=1e-12, atol=1e-12):
+            return dict(what='the centres of an RbfLiftingFn fitted on several episodes are not the centres its generator gives for '
+                             'all the samples', generator=repr(g), got_shape=list(got_c.shape), want_shape=list(ref.centers_.shape))
     return None
 
 
